@@ -75,7 +75,7 @@ fn run_case(case: &Value, root: &Path) -> Value {
     std::fs::create_dir_all(&tdir).unwrap();
     let target = tdir.join(format!("{}.md", name));
     let linker = base.join("linker.md");
-    std::fs::write(&target, "# Target\n\nold\n").unwrap();
+    std::fs::write(&target, "# Target\n\nold\n\n## Sub\n\ntext\n").unwrap();
     let rel = if dir.is_empty() { name.clone() } else { format!("{}/{}", dir, name) };
     // inside <...> a backslash is an escape character: write it escaped
     std::fs::write(&linker, format!("# Linker\n\n[t](<{}>)\n", rel.replace('\\', "\\\\"))).unwrap();
@@ -105,7 +105,7 @@ fn run_case(case: &Value, root: &Path) -> Value {
     let refs_ok = refs.as_ref().and_then(|v| v.as_array()).map(|a| a.len() == 1 && a[0]["uri"] == luri.as_str()).unwrap_or(false);
     let def = req(&mut c, &mut id, "textDocument/definition", json!({"textDocument":{"uri":luri},"position":{"line":2,"character":1}}));
     let def_ok = def.as_ref().map(|v| v["uri"] == turi.as_str()).unwrap_or(false);
-    c.send_notif("textDocument/didChange", json!({"textDocument":{"uri":turi,"version":2},"contentChanges":[{"text":"# Target\n\nnew\n"}]}));
+    c.send_notif("textDocument/didChange", json!({"textDocument":{"uri":turi,"version":2},"contentChanges":[{"text":"# Target\n\nnew\n\n## Sub\n\ntext\n"}]}));
     let n1 = count(&mut c, &mut id);
     if std::env::var("VH_DEBUG").is_ok() {
         let items = req(&mut c, &mut id, "textDocument/completion", json!({"textDocument":{"uri":luri},"position":{"line":0,"character":0}}));
@@ -117,6 +117,24 @@ fn run_case(case: &Value, root: &Path) -> Value {
     let link_titled = lf.as_ref().and_then(|v| v.as_array()).and_then(|a| a.first()).and_then(|e| e["newText"].as_str()).map(|t| t.contains("[Target](")).unwrap_or(false);
     let sym = req(&mut c, &mut id, "workspace/symbol", json!({"query":"Target"}));
     let sym_ok = sym.as_ref().and_then(|v| v.as_array()).map(|a| a.iter().any(|s| s["location"]["uri"] == turi.as_str())).unwrap_or(false);
+    // a code action on the note (extract its sub-section): the workspace edit must address the note's file
+    let acts = req(&mut c, &mut id, "textDocument/codeAction",
+        json!({"textDocument":{"uri":turi},"range":{"start":{"line":4,"character":0},"end":{"line":4,"character":0}},"context":{"diagnostics":[]}}));
+    let extract = acts.as_ref().and_then(|v| v.as_array()).and_then(|a| a.iter().find(|x| x["kind"] == "refactor.extract.section")).cloned();
+    let resolved = match extract {
+        Some(a) => req(&mut c, &mut id, "codeAction/resolve", a),
+        None => None,
+    };
+    let edit_uris: Vec<String> = resolved
+        .as_ref()
+        .and_then(|v| v["edit"]["documentChanges"].as_array())
+        .map(|a| {
+            a.iter()
+                .filter_map(|ch| ch["textDocument"]["uri"].as_str().or(ch["uri"].as_str()).map(|s| s.to_string()))
+                .collect()
+        })
+        .unwrap_or_default();
+    let act_ok = edit_uris.iter().any(|u| u == turi.as_str());
     let exit = c.exit_and_join(Duration::from_secs(10));
     if base_kind == "symlink" {
         let _ = std::fs::remove_file(&base);
@@ -125,7 +143,7 @@ fn run_case(case: &Value, root: &Path) -> Value {
         let _ = std::fs::remove_dir_all(&base);
     }
     json!({"ev":"Uri","name":case["name"],"dir":dir,"base":base_kind,"file":target.to_string_lossy(),"uri":turi,
-           "n0":n0,"n1":n1,"refs_ok":refs_ok,"def_ok":def_ok,"fmt_new":fmt_new,"link_titled":link_titled,"sym_ok":sym_ok,
+           "n0":n0,"n1":n1,"refs_ok":refs_ok,"def_ok":def_ok,"fmt_new":fmt_new,"link_titled":link_titled,"sym_ok":sym_ok,"act_ok":act_ok,"edit_uris":edit_uris,
            "clean_exit": exit == Some(true)})
 }
 
